@@ -178,6 +178,24 @@ def component_aware(rep):
         rep.ob("O6.4", "R6d", bt, any(f"{key} in used" in g for g in gtxt), f"continue under {gtxt}",
                "a host component already in use is skipped (different pattern components go to different host components)",
                node=conts[0] if conts else a)
+    # no other way to skip a candidate placement: every skip must be (host component in use) or (pattern node already placed)
+    for lp_ in [l for l in walk_local(bt.node) if isinstance(l, ast.For) and "ordered[level]" in norm(l.iter)]:
+        hi_, m_ = [norm(e) for e in lp_.target.elts] if isinstance(lp_.target, ast.Tuple) else ("hi", "m")
+        allowed = {f"{hi_}inused", f"any(({norm(ast.parse('p').body[0].value)}inaccforpin{m_}))", f"any(pinaccforpin{m_})"}
+        for ex in [n for n in walk_local(lp_) if isinstance(n, (ast.Continue, ast.Break))]:
+            gs = guards_of(parent_map(bt.node), ex, lp_)
+            parts = []
+            for t, s_ in gs:
+                vals = t.values if isinstance(t, ast.BoolOp) and isinstance(t.op, ast.Or) else [t]
+                parts += [norm(v).replace(" ", "").replace("((", "(").replace("))", ")") for v in vals]
+            ok_skip = isinstance(ex, ast.Continue) and bool(parts) and all(
+                p_ in (f"{hi_}inused", f"any(pinaccforpin{m_})") for p_ in parts)
+            rep.ob("O6.4", "R6d", bt, ok_skip, f"{type(ex).__name__.lower()} under {parts}",
+                   "a candidate placement is skipped only because its host component is in use or one of its pattern nodes is already placed "
+                   "(any further 'symmetry breaking' drops assignments that send different pattern components to different host components)", node=ex)
+        for ex in [n for n in walk_local(lp_) if isinstance(n, ast.Return)]:
+            gtxt = " ".join(norm(t) for t, s_ in guards_of(parent_map(bt.node), ex, lp_))
+            rep.ob("O6.4", "R6d", bt, "max_results" in gtxt or "threshold" in gtxt, f"return under `{gtxt}`", "the back-tracking stops early only on the result limits", node=ex)
     # acc.update(m) undone
     upd = [c for c in walk_local(bt.node) if isinstance(c, ast.Call) and norm(c.func) == "acc.update"]
     pops = [c for c in walk_local(bt.node) if isinstance(c, ast.Call) and norm(c.func) in ("acc.pop", "acc.__delitem__")]
